@@ -38,3 +38,7 @@ pub use crate::yaml::{
 pub use crate::util::simd::escape::find_json_escape;
 
 pub use crate::text::utf8::verif_err_at as utf8_err_at;
+
+pub use crate::text::utf8::verif_broadword_accepts as utf8_broadword_accepts;
+#[cfg(all(target_arch = "x86_64", feature = "std"))]
+pub use crate::text::utf8::verif_validate_utf8_avx2 as utf8_avx2_accepts;
